@@ -133,3 +133,16 @@ package keeper
 //@   ensures [never-pays] awardN == old(awardN) && chalBurnN == old(chalBurnN)
 //@   loop 0 invariant awardN == old(awardN) && chalBurnN == old(chalBurnN)
 //@   loop 0 invariant iterator != nil && 0 <= itPos[iterator] && itPos[iterator] <= itN[iterator]
+
+// ---- C35: a relay proof's session height is served only inside the tolerated window ------------
+// (latest session start - allowance * blocksPerSession) <= h <= latest session start, h > 0
+//@ pure latestSession(c Iface) int
+//@ func (Keeper).GetLatestSessionBlockHeight
+//@   trusted integer arithmetic on the block height with division/modulo by the session length: a function of the context
+//@   pure_fn
+//@   ensures sessionBlockHeight == latestSession(ctx)
+//@ pure posBPS(c Iface) int
+//@ func (Keeper).IsProofSessionHeightWithinTolerance
+//@   props C35,C12
+//@   modifies nothing
+//@   ensures [window] result == (relaySessionBlockHeight > 0 && latestSession(ctx) - global(types.GlobalPocketConfig).ClientSessionSyncAllowance * posBPS(ctx) <= relaySessionBlockHeight && relaySessionBlockHeight <= latestSession(ctx))
